@@ -565,7 +565,11 @@ def main():
         "timing": result["timing"],
         "broken": result["broken"],
     }
-    with open(os.path.join(VERIF, "evidence", pid + ".json"), "w") as f:
+    # evidence/ describes runs against /repo itself; a run against another tree (VERIF_REPO, used for seeded changes
+    # in scratch worktrees) writes its record under build/ so that it never replaces the evidence of the real tree
+    evdir = os.path.join(VERIF, "evidence") if os.path.realpath(REPO) == "/repo" else os.path.join(BUILD, "evidence_other_tree")
+    os.makedirs(evdir, exist_ok=True)
+    with open(os.path.join(evdir, pid + ".json"), "w") as f:
         json.dump(ev, f, indent=1)
 
     for c, r in known_hits.items():
